@@ -124,6 +124,8 @@ Proof.
   destruct (find_mkt mkid (s_markets s)); [|apply Hf; auto]. apply He; auto.
 Qed.
 
+Definition order_phase (k : hkind) : bool := match k with HOrder | HCancel | HExec => true | _ => false end.
+
 Section Lift.
 Variable P : sim -> Prop.
 Hypothesis H_fail : forall s e, P s -> P (fail s e).
@@ -295,8 +297,150 @@ Qed.
 
 End Lift.
 
-(* ---- everything above one request: the same lifting with the preservation by [handle_request] as a hypothesis, so that a
+(* ---- everything above one request (hook probes split by phase): the same lifting with the preservation by [handle_request] as a hypothesis, so that a
    predicate which is only restored at the end of a request (e.g. "every record has been told to its parties") lifts too ---- *)
+Section UpperK.
+Variable P : sim -> Prop.
+Hypothesis H_fail : forall s e, P s -> P (fail s e).
+Hypothesis H_probe_u : forall s ev k before mkid extra, order_phase k = false -> P s -> P (emit s (ev_probe s ev k before mkid extra)).
+Hypothesis H_step : forall s kind mkid x, find_mkt mkid (s_markets s) = Some x -> P s -> P (emit s (ev_step s kind x)).
+Hypothesis H_boundary : forall s e, boundary_event e -> P s -> P (flush (write s e)).
+Hypothesis H_tick_all : forall s, P s -> P (tick_all s).
+Hypothesis H_pop_perm : forall s, P s -> P (fst (pop_perm s)).
+Hypothesis H_pop_draw : forall s, P s -> P (fst (pop_draw s)).
+Hypothesis H_consult : forall s aid, P s -> P (fst (consult s aid)).
+Hypothesis H_halt_before : forall s e x, In e (s_events s) -> find_mkt (m_id (mk_m x)) (s_markets s) = Some x -> P s -> P (halt_before_step s e x).
+Hypothesis H_shock : forall s e x, find_mkt (m_id (mk_m x)) (s_markets s) = Some x -> P s -> P (shock_before_step s e x).
+Hypothesis H_set_cur : forall s sid, P s -> P (s <| s_cur := sid |>).
+Hypothesis H_begin_iteration : forall s, P s -> P (begin_iteration s).
+Hypothesis handle_request_pres : forall s r, P s -> P (handle_request s r).
+
+Lemma fire_simple_u s k before t mkid extra : order_phase k = false -> P s -> P (fire_simple s k before t mkid extra).
+Proof.
+  intros Hk H. unfold fire_simple. apply fold_left_pres; auto.
+  intros s0 h H0. destruct (ok s0 && is_probe s0 h); auto.
+Qed.
+
+Lemma fire_market_u s before mkid : P s -> P (fire_market s before mkid).
+Proof.
+  intros H. unfold fire_market. destruct (find_mkt mkid (s_markets s)) as [x0|]; auto.
+  apply fold_left_pres; auto. intros s0 h H0. destruct (negb (ok s0)); auto.
+  destruct (find_mkt mkid (s_markets s0)) as [x|] eqn:Fx; auto.
+  destruct (find_event (h_ev h) (s_events s0)) as [e|] eqn:Fe; auto.
+  apply find_event_In in Fe.
+  destruct (negb (market_filter h x)); auto.
+  assert (Fx' : find_mkt (m_id (mk_m x)) (s_markets s0) = Some x).
+  { rewrite (find_mkt_id _ _ _ Fx). exact Fx. }
+  destruct (es_kind e); auto; destruct before; auto.
+Qed.
+
+Lemma collect_k ags : forall s cap n acc, P s -> P (fst (collect s ags cap n acc)).
+Proof.
+  induction ags as [|a rest IH]; simpl; intros s cap n acc H; auto.
+  destruct (negb (ok s)); simpl; auto. destruct (n >=? cap); simpl; auto.
+  pose proof (H_consult s (a_id a) H) as H1. destruct (consult s (a_id a)) as [s1 b]. simpl in H1.
+  destruct (negb (ok s1)); simpl; auto.
+  destruct b as [|r0 b']; [apply IH; auto|].
+  destruct (spoofed (a_id a) (r0 :: b')); simpl; [apply H_fail; auto|apply IH; auto].
+Qed.
+
+Lemma hft_phase_k ags : forall s cap n, P s -> P (hft_phase s ags cap n).
+Proof.
+  induction ags as [|a rest IH]; simpl; intros s cap n H; auto.
+  destruct (negb (ok s)); auto. destruct (n >=? cap); auto.
+  pose proof (H_consult s (a_id a) H) as H1. destruct (consult s (a_id a)) as [s1 b]. simpl in H1.
+  destruct (negb (ok s1)); auto.
+  destruct b as [|r0 b']; [apply IH; auto|].
+  destruct (spoofed (a_id a) (r0 :: b')); [apply H_fail; auto|].
+  apply IH. apply fold_left_pres; auto; intros; apply handle_request_pres; auto.
+Qed.
+
+Lemma handle_batch_k s b : P s -> P (handle_batch s b).
+Proof.
+  intros H. unfold handle_batch. destruct (negb (ok s)); auto.
+  assert (H1 : P (fold_left handle_request b s)) by (apply fold_left_pres; auto; intros; apply handle_request_pres; auto).
+  destruct (negb (ok (fold_left handle_request b s))); auto.
+  destruct (cur_sess (fold_left handle_request b s)) as [se|]; [|apply H_fail; auto].
+  pose proof (H_pop_draw _ H1) as H2. destruct (pop_draw (fold_left handle_request b s)) as [s2 x]. simpl in H2.
+  destruct (negb (ok s2)); auto. destruct (qltb (se_rate se) x); auto.
+  pose proof (H_pop_perm _ H2) as H3. destruct (pop_perm s2) as [s3 p]. simpl in H3.
+  destruct (negb (ok s3)); auto. apply hft_phase_k; auto.
+Qed.
+
+Lemma update_markets_upk s : P s -> P (update_markets s).
+Proof.
+  intros H. unfold update_markets. destruct (cur_sess s) as [se|]; [|apply H_fail; auto].
+  pose proof (H_pop_perm _ H) as H1. destruct (pop_perm s) as [s1 p]. simpl in H1.
+  destruct (negb (ok s1)); auto.
+  pose proof (collect_k (permute (filter (fun a => negb (a_hft a)) (s_agents s1)) p) s1 (se_maxn se) 0 [] H1) as H2.
+  destruct (collect s1 _ (se_maxn se) 0 []) as [s2 local]. simpl in H2.
+  destruct (negb (ok s2)); auto.
+  pose proof (H_pop_perm _ H2) as H3. destruct (pop_perm s2) as [s3 p2]. simpl in H3.
+  destruct (negb (ok s3)); auto. apply fold_left_pres; auto. intros; apply handle_batch_k; auto.
+Qed.
+
+Lemma step_begin_k s mkid : P s -> P (step_begin s mkid).
+Proof.
+  intros H. unfold step_begin. destruct (negb (ok s)); auto.
+  pose proof (fire_market_u s true mkid H) as H1. destruct (negb (ok (fire_market s true mkid))); auto.
+  destruct (find_mkt mkid (s_markets (fire_market s true mkid))) eqn:Fx; auto. eapply H_step; eauto.
+Qed.
+
+Lemma step_end_k s mkid : P s -> P (step_end s mkid).
+Proof.
+  intros H. unfold step_end. destruct (negb (ok s)); auto. apply fire_market_u.
+  destruct (find_mkt mkid (s_markets s)) eqn:Fx; auto. eapply H_step; eauto.
+Qed.
+
+Lemma one_step_k s : P s -> P (one_step s).
+Proof.
+  intros H. unfold one_step. destruct (negb (ok s)); auto.
+  assert (H1 : P (fold_left step_begin (mids s) s)) by (apply fold_left_pres; auto; intros; apply step_begin_k; auto).
+  set (s1 := fold_left step_begin (mids s) s) in *. destruct (negb (ok s1)); auto.
+  assert (H2 : P (match cur_sess s1 with
+                  | Some se => if se_place se then update_markets s1 else s1
+                  | None => fail s1 EOther end)).
+  { destruct (cur_sess s1) as [se|]; [|apply H_fail; auto]. destruct (se_place se); auto. apply update_markets_upk; auto. }
+  set (s2 := match cur_sess s1 with Some se => _ | None => _ end) in *. destruct (negb (ok s2)); auto.
+  assert (H3 : P (fold_left step_end (mids s2) s2)) by (apply fold_left_pres; auto; intros; apply step_end_k; auto).
+  destruct (negb (ok (fold_left step_end (mids s2) s2))); auto.
+Qed.
+
+Lemma iterate_k n : forall s, P s -> P (iterate n s).
+Proof. induction n as [|k IH]; simpl; intros s H; auto. apply IH. apply one_step_k; auto. Qed.
+
+Lemma run_session_k s se0 : P s -> P (run_session s se0).
+Proof.
+  intros H. unfold run_session. destruct (negb (ok s)); auto.
+  assert (H0 : P (s <| s_cur := se_id se0 |>)) by (apply H_set_cur; auto).
+  set (s0 := s <| s_cur := se_id se0 |>) in *.
+  pose proof (fire_simple_u s0 HSession true (se_start se0) (-1) [VZ (se_id se0); VZ (se_start se0)] eq_refl H0) as H1.
+  set (s1 := fire_simple s0 HSession true _ _ _) in *. destruct (negb (ok s1)); auto.
+  assert (H2 : P (begin_iteration (flush (write s1 (EvSessBegin (se_id se0) (clock s1)))))).
+  { apply H_begin_iteration. apply H_boundary; simpl; auto. }
+  pose proof (iterate_k (Z.to_nat (se_steps se0)) _ H2) as H3.
+  set (s3 := iterate _ _) in *. destruct (negb (ok s3)); auto.
+  pose proof (fire_simple_u s3 HSession false (se_start se0 + se_steps se0 - 1) (-1)
+                [VZ (se_id se0); VZ (se_start se0 + se_steps se0 - 1)] eq_refl H3) as H4.
+  set (s4 := fire_simple s3 HSession false _ _ _) in *. destruct (negb (ok s4)); auto.
+  apply H_boundary; simpl; auto.
+Qed.
+
+(* the whole run: from the initial state to the end, for every configuration and all input tapes *)
+Theorem run_upk c tape batches funds : P (init_sim c tape batches funds) -> P (run c tape batches funds).
+Proof.
+  intros H. unfold run.
+  assert (H1 : P (tick_all (flush (write (init_sim c tape batches funds) EvSimBegin)))).
+  { apply H_tick_all. apply H_boundary; simpl; auto. }
+  set (s1 := tick_all _) in *.
+  assert (H2 : P (fold_left run_session (s_sessions s1) s1)).
+  { apply fold_left_pres; auto. intros; apply run_session_k; auto. }
+  destruct (negb (ok (fold_left run_session (s_sessions s1) s1))); auto. apply H_boundary; simpl; auto.
+Qed.
+
+End UpperK.
+
+(* the same with one hypothesis for all consult / probe events *)
 Section Upper.
 Variable P : sim -> Prop.
 Hypothesis H_fail : forall s e, P s -> P (fail s e).
@@ -313,113 +457,20 @@ Hypothesis H_set_cur : forall s sid, P s -> P (s <| s_cur := sid |>).
 Hypothesis H_begin_iteration : forall s, P s -> P (begin_iteration s).
 Hypothesis handle_request_pres : forall s r, P s -> P (handle_request s r).
 
-Let fire_simple_pres := fire_simple_pres P H_emit.
-Let fire_market_pres := fire_market_pres P H_emit H_halt_before H_shock.
-
-Lemma collect_pres ags : forall s cap n acc, P s -> P (fst (collect s ags cap n acc)).
-Proof.
-  induction ags as [|a rest IH]; simpl; intros s cap n acc H; auto.
-  destruct (negb (ok s)); simpl; auto. destruct (n >=? cap); simpl; auto.
-  pose proof (H_consult s (a_id a) H) as H1. destruct (consult s (a_id a)) as [s1 b]. simpl in H1.
-  destruct (negb (ok s1)); simpl; auto.
-  destruct b as [|r0 b']; [apply IH; auto|].
-  destruct (spoofed (a_id a) (r0 :: b')); simpl; [apply H_fail; auto|apply IH; auto].
-Qed.
-
-Lemma hft_phase_pres ags : forall s cap n, P s -> P (hft_phase s ags cap n).
-Proof.
-  induction ags as [|a rest IH]; simpl; intros s cap n H; auto.
-  destruct (negb (ok s)); auto. destruct (n >=? cap); auto.
-  pose proof (H_consult s (a_id a) H) as H1. destruct (consult s (a_id a)) as [s1 b]. simpl in H1.
-  destruct (negb (ok s1)); auto.
-  destruct b as [|r0 b']; [apply IH; auto|].
-  destruct (spoofed (a_id a) (r0 :: b')); [apply H_fail; auto|].
-  apply IH. apply fold_left_pres; auto; intros; apply handle_request_pres; auto.
-Qed.
-
-Lemma handle_batch_pres s b : P s -> P (handle_batch s b).
-Proof.
-  intros H. unfold handle_batch. destruct (negb (ok s)); auto.
-  assert (H1 : P (fold_left handle_request b s)) by (apply fold_left_pres; auto; intros; apply handle_request_pres; auto).
-  destruct (negb (ok (fold_left handle_request b s))); auto.
-  destruct (cur_sess (fold_left handle_request b s)) as [se|]; [|apply H_fail; auto].
-  pose proof (H_pop_draw _ H1) as H2. destruct (pop_draw (fold_left handle_request b s)) as [s2 x]. simpl in H2.
-  destruct (negb (ok s2)); auto. destruct (qltb (se_rate se) x); auto.
-  pose proof (H_pop_perm _ H2) as H3. destruct (pop_perm s2) as [s3 p]. simpl in H3.
-  destruct (negb (ok s3)); auto. apply hft_phase_pres; auto.
-Qed.
+Let HP : forall s ev k before mkid extra, order_phase k = false -> P s -> P (emit s (ev_probe s ev k before mkid extra)) :=
+  fun s ev k before mkid extra _ H => H_emit s (ev_probe s ev k before mkid extra) I H.
 
 Lemma update_markets_up s : P s -> P (update_markets s).
-Proof.
-  intros H. unfold update_markets. destruct (cur_sess s) as [se|]; [|apply H_fail; auto].
-  pose proof (H_pop_perm _ H) as H1. destruct (pop_perm s) as [s1 p]. simpl in H1.
-  destruct (negb (ok s1)); auto.
-  pose proof (collect_pres (permute (filter (fun a => negb (a_hft a)) (s_agents s1)) p) s1 (se_maxn se) 0 [] H1) as H2.
-  destruct (collect s1 _ (se_maxn se) 0 []) as [s2 local]. simpl in H2.
-  destruct (negb (ok s2)); auto.
-  pose proof (H_pop_perm _ H2) as H3. destruct (pop_perm s2) as [s3 p2]. simpl in H3.
-  destruct (negb (ok s3)); auto. apply fold_left_pres; auto. intros; apply handle_batch_pres; auto.
-Qed.
-
+Proof. apply (update_markets_upk P H_fail H_pop_perm H_pop_draw H_consult handle_request_pres). Qed.
 Lemma step_begin_pres s mkid : P s -> P (step_begin s mkid).
-Proof.
-  intros H. unfold step_begin. destruct (negb (ok s)); auto.
-  pose proof (fire_market_pres s true mkid H) as H1. destruct (negb (ok (fire_market s true mkid))); auto.
-  destruct (find_mkt mkid (s_markets (fire_market s true mkid))) eqn:Fx; auto. eapply H_step; eauto.
-Qed.
-
+Proof. apply (step_begin_k P HP H_step H_halt_before H_shock). Qed.
 Lemma step_end_pres s mkid : P s -> P (step_end s mkid).
-Proof.
-  intros H. unfold step_end. destruct (negb (ok s)); auto. apply fire_market_pres.
-  destruct (find_mkt mkid (s_markets s)) eqn:Fx; auto. eapply H_step; eauto.
-Qed.
-
-Lemma one_step_pres s : P s -> P (one_step s).
-Proof.
-  intros H. unfold one_step. destruct (negb (ok s)); auto.
-  assert (H1 : P (fold_left step_begin (mids s) s)) by (apply fold_left_pres; auto; intros; apply step_begin_pres; auto).
-  set (s1 := fold_left step_begin (mids s) s) in *. destruct (negb (ok s1)); auto.
-  assert (H2 : P (match cur_sess s1 with
-                  | Some se => if se_place se then update_markets s1 else s1
-                  | None => fail s1 EOther end)).
-  { destruct (cur_sess s1) as [se|]; [|apply H_fail; auto]. destruct (se_place se); auto. apply update_markets_up; auto. }
-  set (s2 := match cur_sess s1 with Some se => _ | None => _ end) in *. destruct (negb (ok s2)); auto.
-  assert (H3 : P (fold_left step_end (mids s2) s2)) by (apply fold_left_pres; auto; intros; apply step_end_pres; auto).
-  destruct (negb (ok (fold_left step_end (mids s2) s2))); auto.
-Qed.
-
-Lemma iterate_pres n : forall s, P s -> P (iterate n s).
-Proof. induction n as [|k IH]; simpl; intros s H; auto. apply IH. apply one_step_pres; auto. Qed.
-
-Lemma run_session_pres s se0 : P s -> P (run_session s se0).
-Proof.
-  intros H. unfold run_session. destruct (negb (ok s)); auto.
-  assert (H0 : P (s <| s_cur := se_id se0 |>)) by (apply H_set_cur; auto).
-  set (s0 := s <| s_cur := se_id se0 |>) in *.
-  pose proof (fire_simple_pres s0 HSession true (se_start se0) (-1) [VZ (se_id se0); VZ (se_start se0)] H0) as H1.
-  set (s1 := fire_simple s0 HSession true _ _ _) in *. destruct (negb (ok s1)); auto.
-  assert (H2 : P (begin_iteration (flush (write s1 (EvSessBegin (se_id se0) (clock s1)))))).
-  { apply H_begin_iteration. apply H_boundary; simpl; auto. }
-  pose proof (iterate_pres (Z.to_nat (se_steps se0)) _ H2) as H3.
-  set (s3 := iterate _ _) in *. destruct (negb (ok s3)); auto.
-  pose proof (fire_simple_pres s3 HSession false (se_start se0 + se_steps se0 - 1) (-1)
-                [VZ (se_id se0); VZ (se_start se0 + se_steps se0 - 1)] H3) as H4.
-  set (s4 := fire_simple s3 HSession false _ _ _) in *. destruct (negb (ok s4)); auto.
-  apply H_boundary; simpl; auto.
-Qed.
-
-(* the whole run: from the initial state to the end, for every configuration and all input tapes *)
+Proof. apply (step_end_k P HP H_step H_halt_before H_shock). Qed.
 Theorem run_up c tape batches funds : P (init_sim c tape batches funds) -> P (run c tape batches funds).
 Proof.
-  intros H. unfold run.
-  assert (H1 : P (tick_all (flush (write (init_sim c tape batches funds) EvSimBegin)))).
-  { apply H_tick_all. apply H_boundary; simpl; auto. }
-  set (s1 := tick_all _) in *.
-  assert (H2 : P (fold_left run_session (s_sessions s1) s1)).
-  { apply fold_left_pres; auto. intros; apply run_session_pres; auto. }
-  destruct (negb (ok (fold_left run_session (s_sessions s1) s1))); auto. apply H_boundary; simpl; auto.
+  apply (run_upk P H_fail HP H_step H_boundary H_tick_all H_pop_perm H_pop_draw H_consult H_halt_before H_shock H_set_cur
+           H_begin_iteration handle_request_pres).
 Qed.
-
 End Upper.
 
 (* the original one-piece lifting: every atomic update preserves P => the whole run does *)
